@@ -120,7 +120,11 @@ fn check_seeded(seed: &[u8], o: &mut Outcome) -> Option<(Vec<u8>, Vec<u8>)> {
     }
     // RLN byte API
     let mut out = vec![];
-    match guarded(|| rln.seeded_key_gen(Cursor::new(seed), &mut out)) {
+    crate::gens::set_io_style((seed.len() % 4) as u8);
+    let mut sink = crate::gens::Sink::new();
+    let r1 = guarded(|| rln.seeded_key_gen(crate::gens::rd(seed), &mut sink));
+    out = sink.data;
+    match r1 {
         Ok(Ok(())) if out == exp_pair => {}
         other => {
             vfail!(o, "RLN::seeded_key_gen bytes differ from reference (seed len {}): {:?} out={out:?}", seed.len(), other.map(|r| r.map_err(|e| e.to_string())));
@@ -128,7 +132,10 @@ fn check_seeded(seed: &[u8], o: &mut Outcome) -> Option<(Vec<u8>, Vec<u8>)> {
         }
     }
     let mut out2 = vec![];
-    match guarded(|| rln.seeded_extended_key_gen(Cursor::new(seed), &mut out2)) {
+    let mut sink2 = crate::gens::Sink::new();
+    let r2 = guarded(|| rln.seeded_extended_key_gen(crate::gens::rd(seed), &mut sink2));
+    out2 = sink2.data;
+    match r2 {
         Ok(Ok(())) if out2 == exp_tuple => {}
         other => {
             vfail!(o, "RLN::seeded_extended_key_gen bytes differ from reference (seed len {}): {:?}", seed.len(), other.map(|r| r.map_err(|e| e.to_string())));
